@@ -303,16 +303,20 @@ def gen_workload(tape):
     for _ in range(nops):
         kind = tape.weighted([(10, 'store'), (2, 'store_input'), (1, 'store_final'), (4, 'log'),
                               (2, 'annotate'), (2, 'metadata'), (2, 'localfile'), (3, 'retrieve'),
-                              (1, 'db_store_model'), (1, 'retrieve_log')], 'op')
+                              (1, 'db_store_model'), (1, 'retrieve_log'), (2, 'sub_store'),
+                              (1, 'sub_log')], 'op')
         m = chosen[tape.draw(len(chosen), 'op.model')]
-        if kind == 'log':
+        if kind in ('log', 'sub_log'):
             sev = ('info', 'warning', 'error')[tape.draw(3, 'log.sev')]
             msg = MESSAGES[tape.draw(len(MESSAGES), 'log.msg')]
             with_model = tape.draw(3, 'log.model') == 2
-            ops.append({'kind': 'log', 'sev': sev, 'msg': msg, 'model': m if with_model else None})
+            ops.append({'kind': 'log', 'sev': sev, 'msg': msg, 'model': m if with_model else None,
+                        'sub': kind == 'sub_log'})
         elif kind == 'annotate':
             ops.append({'kind': 'annotate', 'model': m,
                         'text': ANNOTATIONS[tape.draw(len(ANNOTATIONS), 'annot.text')]})
+        elif kind == 'sub_store':
+            ops.append({'kind': 'store', 'model': m, 'sub': True})
         else:
             ops.append({'kind': kind, 'model': m})
     return {'models': chosen, 'ops': ops}
@@ -322,12 +326,13 @@ def fmt_op(op):
     k = op['kind']
     if k == 'log':
         m = f",model={POOL[op['model']]['name']}" if op['model'] is not None else ''
-        return f"log_{op['sev']}({op['msg'][:30]!r}{'...' if len(op['msg']) > 30 else ''}{m})"
+        return f"{'sub1.' if op.get('sub') else ''}log_{op['sev']}({op['msg'][:30]!r}" \
+               f"{'...' if len(op['msg']) > 30 else ''}{m})"
     if k == 'annotate':
         return f"store_annotation({POOL[op['model']]['name']!r}, {op['text']!r})"
     if k == 'retrieve_log':
         return 'retrieve_log()'
-    return f"{k}({POOL[op['model']]['name']})"
+    return f"{'sub1.' if op.get('sub') else ''}{k}({POOL[op['model']]['name']})"
 
 
 class Ref:
@@ -352,9 +357,19 @@ class Ref:
         return r
 
 
+SUB = 'sub1'
+
+
 def store_name(op):
+    """Name bound by a store operation; names of the subcontext are prefixed 'sub1/'."""
     e = POOL[op['model']]
-    return {'store': e['name'], 'store_input': 'input', 'store_final': 'final'}[op['kind']]
+    n = {'store': e['name'], 'store_input': 'input', 'store_final': 'final'}[op['kind']]
+    return f'{SUB}/{n}' if op.get('sub') else n
+
+
+def log_path_of(op):
+    base_ = f'ctx/{SUB}' if op.get('sub') else 'ctx'
+    return base_ if op['model'] is None else f"{base_}/@{POOL[op['model']]['name']}"
 
 
 def apply_ack(ref, op):
@@ -373,8 +388,7 @@ def apply_ack(ref, op):
         e = POOL[op['model']]
         ref.keys_acked.setdefault(e['key'], {'results': False})
     elif k == 'log':
-        ctxpath = 'ctx' if op['model'] is None else f"ctx/@{POOL[op['model']]['name']}"
-        ref.log.append((op['sev'], ctxpath, op['msg']))
+        ref.log.append((op['sev'], log_path_of(op), op['msg']))
         ref.log_times.append(op.get('_times'))
     elif k == 'annotate':
         ref.annot[POOL[op['model']]['name']] = op['text']
@@ -393,6 +407,8 @@ def name_conflict(ref, op):
 def do_op(ctx, op, localfile):
     k = op['kind']
     e = POOL[op['model']] if op.get('model') is not None else None
+    if op.get('sub'):
+        ctx = quiet(ctx.create_subcontext(SUB))
     if k == 'store':
         ctx.store_model_entry(e['me'])
     elif k == 'store_input':
@@ -474,8 +490,7 @@ class Infl:
         for o in self.ops:
             k = o['kind']
             if k == 'log':
-                ctxpath = 'ctx' if o['model'] is None else f"ctx/@{POOL[o['model']]['name']}"
-                self.logs.append((o['sev'], ctxpath, o['msg']))
+                self.logs.append((o['sev'], log_path_of(o), o['msg']))
             elif k == 'annotate':
                 self.annot_alts.setdefault(POOL[o['model']]['name'], set()).add(o['text'])
             elif k in ('retrieve', 'retrieve_log'):
@@ -508,6 +523,16 @@ def check_state(root, ref, inflight, V, where, wl_models, do_progress=True):
         V.viol(f'reopen-failed/{type(ex).__name__}', f'{where}: reopening the context raised {ex!r}')
         return
     db = ctx.model_database
+    subctx = [None]
+
+    def cx(name):
+        """(context object, plain name) for a possibly 'sub1/'-prefixed name."""
+        if name.startswith(SUB + '/'):
+            if subctx[0] is None:
+                subctx[0] = quiet(ctx.get_subcontext(SUB))
+            return subctx[0], name[len(SUB) + 1:]
+        return ctx, name
+
     pending_sig = ('committed-unretrievable/PendingTransactionError/'
                    'later-transaction-in-flight-on-same-key')
     # ---- R1/R2 by key
@@ -546,6 +571,10 @@ def check_state(root, ref, inflight, V, where, wl_models, do_progress=True):
     # ---- by name
     try:
         names = ctx.list_all_names()
+        try:
+            names = names + [f'{SUB}/{n}' for n in quiet(ctx.get_subcontext(SUB)).list_all_names()]
+        except ValueError:
+            pass          # the subcontext does not exist (yet)
     except Exception as ex:
         V.viol(f'list-names-failed/{type(ex).__name__}', f'{where}: {ex!r}')
         names = []
@@ -554,7 +583,8 @@ def check_state(root, ref, inflight, V, where, wl_models, do_progress=True):
             V.viol('committed-name-lost', f'{where}: acknowledged name {name!r} is not listed')
             continue
         try:
-            me = ctx.retrieve_model_entry(name)
+            c_, plain = cx(name)
+            me = c_.retrieve_model_entry(plain)
         except Exception as ex:
             if isinstance(ex, _P['Pending']) and key in infl.keys:
                 V.viol(pending_sig,
@@ -570,7 +600,7 @@ def check_state(root, ref, inflight, V, where, wl_models, do_progress=True):
             continue
         exp_res = ref.keys_acked[key]['results']
         prob = content_problem(me, key, exp_res, exp_res or key in infl.result_keys)
-        if prob is None and me.model.name != name:
+        if prob is None and me.model.name != plain:
             prob = f'name is {me.model.name!r}'
         want = ref.annot.get(name)
         alts = {want} | infl.annot_alts.get(name, set())
@@ -581,10 +611,12 @@ def check_state(root, ref, inflight, V, where, wl_models, do_progress=True):
         else:
             V.count('r2.by_name_ok')
         try:
-            k2 = ctx.retrieve_key(name)
+            k2 = c_.retrieve_key(plain)
             if str(k2) != key:
                 V.viol('name-bound-to-wrong-key', f'{where}: {name!r} -> {str(k2)[:8]}, stored {key[:8]}')
-            n2 = ctx.retrieve_name(ModelHash(key))
+            n2 = c_.retrieve_name(ModelHash(key))
+            if c_ is not ctx:
+                n2 = f'{SUB}/{n2}'
             if ref.names.get(n2) != key and infl.names.get(n2) != key:
                 V.viol('name-bound-to-wrong-key', f'{where}: retrieve_name({key[:8]}) = {n2!r}')
         except Exception as ex:
@@ -599,13 +631,14 @@ def check_state(root, ref, inflight, V, where, wl_models, do_progress=True):
         if name in ref.names:
             continue
         try:
-            me = ctx.retrieve_model_entry(name)
+            c_, plain = cx(name)
+            me = c_.retrieve_model_entry(plain)
         except Exception:
             V.count('r1.unacked_name_raises')
             continue
         key = None
         try:
-            key = str(ctx.retrieve_key(name))
+            key = str(c_.retrieve_key(plain))
         except Exception:
             pass
         if key not in GOLD or infl.names.get(name) != key:
@@ -620,7 +653,8 @@ def check_state(root, ref, inflight, V, where, wl_models, do_progress=True):
     for name, text in ref.annot.items():
         alts = {text} | infl.annot_alts.get(name, set())
         try:
-            got = ctx.retrieve_annotation(name)
+            c_, plain = cx(name)
+            got = c_.retrieve_annotation(plain)
         except Exception as ex:
             if infl.annotation_writers:
                 V.viol('committed-unretrievable/KeyError/annotations-lost',
@@ -931,7 +965,10 @@ def run_journal(cfg, tape, want_trace=False):
                     if ky != e['key']:
                         continue
                     try:
-                        me = ctx.retrieve_model_entry(nm)
+                        if nm.startswith(SUB + '/'):
+                            me = quiet(ctx.get_subcontext(SUB)).retrieve_model_entry(nm[len(SUB) + 1:])
+                        else:
+                            me = ctx.retrieve_model_entry(nm)
                         prob = content_problem(me, ky, ref.keys_acked[ky]['results'], False)
                     except Exception as ex:
                         prob = f'raises {ex!r}'
